@@ -11,8 +11,8 @@ from ..aggen import snapshot
 from ..modelgen import lang_and_model, build_language, build_model
 
 PROPERTY = 'C10'
-RULE = ('attack graphs produced by short histories (generate from G_lang x G_model -> optional '
-        'attach_attackers -> extra attackers incl. two sharing a name and explicit ids incl. 0 -> compromises -> '
+RULE = ('attack graphs produced by short histories (generate from G_lang x G_model, asset names also duplicate / containing colons -> optional '
+        'attach_attackers -> extra attackers incl. two sharing a name, explicit ids incl. 0 and entry points outside the reached steps -> compromises -> undo of some compromises (also of entry points) -> '
         'optional analysis -> optional prune -> extras on random nodes) x {json, yml} x {model given, model '
         'absent}. Oracle: typed comparison of the loaded graph with the original through attributes: per node '
         'id, name, type, TTC, defense status (float), existence status, viability, necessity (bool), MITRE '
@@ -45,10 +45,19 @@ def check_case(case) -> Outcome:
             kw = {}
             if a['id'] is not None and g.get_attacker_by_id(a['id']) is None:
                 kw['attacker_id'] = a['id']
-            g.add_attacker(att, entry_points=reached[:a['n_entry']], reached_attack_steps=reached, **kw)
+            entries = reached[:a['n_entry']]
+            if a.get('entry') is not None:      # entry points need not be among the reached steps
+                entries = sorted({ns[i % len(ns)].id for i in a['entry']})
+            g.add_attacker(att, entry_points=entries, reached_attack_steps=reached, **kw)
         for j, i in case['compromises']:
             if g.attackers and g.nodes:
                 g.attackers[j % len(g.attackers)].compromise(g.nodes[i % len(g.nodes)])
+        for j, i in case.get('undos', []):
+            # undo a compromise of one of the attacker's reached steps (possibly an entry point)
+            if g.attackers:
+                a_ = g.attackers[j % len(g.attackers)]
+                if a_.reached_attack_steps:
+                    a_.undo_compromise(a_.reached_attack_steps[i % len(a_.reached_attack_steps)])
         if case['analyse']:
             apriori.calculate_viability_and_necessity(g)
         n_before = len(g.nodes)
@@ -117,16 +126,19 @@ def check_case(case) -> Outcome:
 @st.composite
 def cases(draw):
     c = draw(lang_and_model({'max_assets': 4, 'max_expr_depth': 2},
-                            {'max_assets': 4, 'attackers': True, 'min_assets': 1}))
+                            {'max_assets': 4, 'attackers': True, 'min_assets': 1,
+                             'weird_names': draw(st.integers(0, 2)) == 0}))
     small = st.integers(0, 15)
     extra = []
     for k in range(draw(st.integers(0, 3))):
         extra.append({'name': draw(st.sampled_from(['Eve', 'Eve', 'Mallory', 'Attacker0'])),
                       'id': draw(st.sampled_from([None, None, 0, 7, 3])),
                       'reached': draw(st.lists(small, min_size=2 if k == 0 else 0, max_size=5)),
-                      'n_entry': draw(st.integers(0, 2))})
+                      'n_entry': draw(st.integers(0, 2)),
+                      'entry': draw(st.lists(small, max_size=2)) if draw(st.integers(0, 3)) == 0 else None})
     c.update({'attach': draw(st.booleans()), 'extra_attackers': extra,
               'compromises': draw(st.lists(st.tuples(small, small).map(list), max_size=4)),
+              'undos': draw(st.lists(st.tuples(small, small).map(list), max_size=2)),
               'analyse': draw(st.integers(0, 3)) > 0, 'prune': draw(st.booleans()),
               'node_extras': draw(st.lists(st.tuples(small, st.sampled_from(EXTRAS)).map(list), max_size=2)),
               'fmt': draw(st.integers(0, 1)), 'with_model': draw(st.integers(0, 1))})
